@@ -660,7 +660,7 @@ impl LayerGroup {
         let chunk_string_heap = StringHeap::from(cursor.position() + 8);
 
         let chunk_header =
-            LayerChunkHeader::read_le_args(&mut cursor, (&chunk_string_heap,)).unwrap();
+            LayerChunkHeader::read_le_args(&mut cursor, (&chunk_string_heap,)).ok()?;
 
         if chunk_header.chunk_size <= 0 {
             return None;
@@ -668,9 +668,10 @@ impl LayerGroup {
 
         let old_pos = cursor.position();
 
-        let mut layer_offsets = vec![0i32; chunk_header.layer_count as usize];
-        for i in 0..chunk_header.layer_count {
-            layer_offsets[i as usize] = cursor.read_le::<i32>().unwrap();
+        // not pre-sized: the count comes from the file
+        let mut layer_offsets = Vec::new();
+        for _ in 0..chunk_header.layer_count {
+            layer_offsets.push(cursor.read_le::<i32>().ok()?);
         }
 
         let mut layers = Vec::new();
@@ -678,7 +679,7 @@ impl LayerGroup {
         for i in 0..chunk_header.layer_count {
             cursor
                 .seek(SeekFrom::Start(old_pos + layer_offsets[i as usize] as u64))
-                .unwrap();
+                .ok()?;
 
             let old_pos = cursor.position();
 
@@ -686,14 +687,14 @@ impl LayerGroup {
             let data_heap = StringHeap::from(old_pos);
 
             let header =
-                LayerHeader::read_le_args(&mut cursor, (&data_heap, &string_heap)).unwrap();
+                LayerHeader::read_le_args(&mut cursor, (&data_heap, &string_heap)).ok()?;
 
             let mut objects = Vec::new();
             // read instance objects
             {
-                let mut instance_offsets = vec![0i32; header.instance_object_count as usize];
-                for i in 0..header.instance_object_count {
-                    instance_offsets[i as usize] = cursor.read_le::<i32>().unwrap();
+                let mut instance_offsets = Vec::new();
+                for _ in 0..header.instance_object_count {
+                    instance_offsets.push(cursor.read_le::<i32>().ok()?);
                 }
 
                 for i in 0..header.instance_object_count {
@@ -703,11 +704,11 @@ impl LayerGroup {
                                 + header.instance_object_offset as u64
                                 + instance_offsets[i as usize] as u64,
                         ))
-                        .unwrap();
+                        .ok()?;
 
-                    let start = cursor.stream_position().unwrap();
+                    let start = cursor.stream_position().ok()?;
 
-                    objects.push(InstanceObject::read_le_args(&mut cursor, (start,)).unwrap());
+                    objects.push(InstanceObject::read_le_args(&mut cursor, (start,)).ok()?);
                 }
             }
 
@@ -717,9 +718,9 @@ impl LayerGroup {
                     .seek(SeekFrom::Start(
                         old_pos + header.ob_set_referenced_list as u64,
                     ))
-                    .unwrap();
+                    .ok()?;
                 for _ in 0..header.ob_set_referenced_list_count {
-                    OBSetReferenced::read(&mut cursor).unwrap();
+                    OBSetReferenced::read(&mut cursor).ok()?;
                 }
             }
 
@@ -729,9 +730,9 @@ impl LayerGroup {
                     .seek(SeekFrom::Start(
                         old_pos + header.ob_set_enable_referenced_list as u64,
                     ))
-                    .unwrap();
+                    .ok()?;
                 for _ in 0..header.ob_set_enable_referenced_list_count {
-                    OBSetEnableReferenced::read(&mut cursor).unwrap();
+                    OBSetEnableReferenced::read(&mut cursor).ok()?;
                 }
             }
 
